@@ -512,7 +512,60 @@ def line_formatters(F):
     return out
 
 
+def _clause_amount_signs(rep, fb, alts):
+    """R3 (every emitted line is a DSL sentence): the grammar's numbers carry no sign, so an amount printed into an OPTIONAL clause
+    (FEES / TAX) must be positive on the path that prints it — the clause's alternative stands under `amount > 0`. Under
+    `amount != 0` a negative fee of the export (`-$0.05`, legal there) is printed as `FEES -0.05`, which the DSL parser rejects
+    for the whole file (seeded change C18-s7)."""
+    if len(alts) < 2:
+        return
+    base = alts[0]["parts"]
+    for k, alt in enumerate(alts[1:], 1):
+        extra = alt["parts"][len(base):] if [p[:2] for p in alt["parts"][:len(base)]] == [p[:2] for p in base] else None
+        if not extra or not any(p[0] == "arg" for p in extra):
+            continue
+        kw = next((p[1].strip() for p in extra if p[0] == "lit" and p[1].strip()), "clause")
+        signed = False
+        for cond, val in alt["guards"]:
+            if not (isinstance(cond, tuple) and cond and cond[0] == "cmp"):
+                continue
+            op, l, r = cond[1], cond[2], cond[3]
+            zl, zr = show(l).endswith("ZERO") or l == ("int", 0), show(r).endswith("ZERO") or r == ("int", 0)
+            tv = val != "0"
+            if zr and ((op == "Gt" and tv) or (op == "Le" and not tv)):
+                signed = True
+            if zl and ((op == "Lt" and tv) or (op == "Ge" and not tv)):
+                signed = True
+        # `amount.filter(|v| *v > ZERO)` … Some(v): the predicate is the sign test
+        for cond, val in alt["guards"]:
+            if not (isinstance(cond, tuple) and cond and cond[0] == "discr" and val == "1"):
+                continue
+            for x in subterms(cond):
+                if isinstance(x, tuple) and x and x[0] == "call" and parse_callee(x[1])[2] == "filter" and len(x[2]) == 2 and isinstance(x[2][1], tuple) \
+                        and x[2][1] and x[2][1][0] == "closure" and x[2][1][1] in _F[0].bodies:
+                    from mir import closure_summary
+                    sm = closure_summary(_F[0], x[2][1][1], 0)
+                    for y in subterms(sm) if sm is not None else ():
+                        if isinstance(y, tuple) and y and y[0] == "cmp" and y[1] == "Gt" and (show(y[3]).endswith("ZERO") or y[3] == ("int", 0)):
+                            signed = True
+        if not signed and any("abs(" in show(p[2]) for p in extra if p[0] == "arg" and len(p) > 2 and isinstance(p[2], tuple)):
+            signed = True
+        key = f"R3:{fb.short}:{kw}:clause-sign"
+        if key in _SEEN_SIGN:
+            continue
+        _SEEN_SIGN.add(key)
+        rep.ob("R3", f"{fb.short}:{kw}:amount>0", signed, f"the {kw} clause is printed only for a positive amount" if signed else
+               f"`{fb.short}` prints the {kw} clause without requiring the amount to be positive: a negative amount gives `{kw} -…`, which is not a number of the "
+               "DSL grammar — the whole converted file is rejected", alt.get("site", fb.loc()), key=key)
+
+
+_SEEN_SIGN = set()
+_F = [None]
+
+
 def output_grammar(ctx, rep):
+    _SEEN_SIGN.clear()
+    _F[0] = ctx.F
     F, S = ctx.F, ctx.S
     lf = line_formatters(F)
     rep.count("line_formatters", {k.split("::")[-1]: v[0] for k, v in lf.items()})
@@ -543,6 +596,7 @@ def output_grammar(ctx, rep):
                     arg_sets = [[al[0][:ai] + [("str", s)] + al[0][ai + 1:]] for al in arg_sets for s in cs]
             if kind == "trade":
                 _row_kind_printed(F, rep, fb, cb, t, args0)
+            _clause_amount_signs(rep, fb, fcs)
             for args, k, alt in [(al[0], k, alt) for al in arg_sets for k, alt in enumerate(fcs)]:       # every string the formatter can return is one whole line
                 label = "base" if k == 0 else "with-clause"
                 parts = _subst_parts(F, fb, alt, args)
